@@ -169,6 +169,12 @@ SPECS = [
     dict(name="fit_file_block", py="aspire.py:Aspire.fit", mode="file", part="fit"),
     dict(name="sample_pre_block", py="aspire.py:Aspire.sample_posterior", mode="file", part="sample_pre"),
     dict(name="sample_post_block", py="aspire.py:Aspire.sample_posterior", mode="file", part="sample_post"),
+    # the checkpoint state dictionary (ninth vocabulary: state2lean.py)
+    dict(name="base_build_checkpoint_state", py="samplers/base.py:Sampler.build_checkpoint_state", mode="state", part="base_build"),
+    dict(name="smc_checkpoint_extra_state", py="samplers/smc/base.py:SMCSampler._checkpoint_extra_state", mode="state", part="smc_extra"),
+    dict(name="smc_build_checkpoint_state", py="samplers/smc/base.py:SMCSampler.build_checkpoint_state", mode="state", part="smc_build"),
+    dict(name="base_restore_from_checkpoint", py="samplers/base.py:Sampler.restore_from_checkpoint", mode="state", part="base_restore"),
+    dict(name="smc_restore_from_checkpoint", py="samplers/smc/base.py:SMCSampler.restore_from_checkpoint", mode="state", part="smc_restore"),
     # the context managers (fourth vocabulary: ctx2lean.py)
     dict(name="pool_enter", py="utils.py:PoolHandler.__enter__", mode="ctx", part="pool_enter"),
     dict(name="pool_exit", py="utils.py:PoolHandler.__exit__", mode="ctx", part="pool_exit"),
@@ -195,6 +201,8 @@ GROUPS = {
     "SrcEval": (["EvalOps"], ["sampler_log_likelihood", "draw_initial_samples", "importance_eval", "mcmc_target_eval", "smc_target_eval",
                               "minipcn_mutate_eval", "emcee_mutate_eval"]),
     "SrcFile": (["FileOps"], ["fit_file_block", "sample_pre_block", "sample_post_block"]),
+    "SrcState": (["StateOps"], ["base_build_checkpoint_state", "smc_checkpoint_extra_state", "smc_build_checkpoint_state",
+                                "base_restore_from_checkpoint", "smc_restore_from_checkpoint"]),
     "SrcCtx": (["CtxOps"], ["pool_enter", "pool_exit", "auto_enter", "auto_finally"]),
     "SrcSmcLoop": (["LoopOps"], ["smc_maybe_checkpoint", "smc_loop_body", "smc_epilogue", "smc_driver"]),
 }
